@@ -17,10 +17,23 @@ Extensions (each with its own signatures):
     intervals of the contigs its filter keeps) is compared with the file as well;
   * operation histories on ONE IndexedFasta: whole-contig results are KEPT while further contigs are fetched
     (every fetch order of the records + a re-fetch, dict(items()), list(values()), interleaved interval reads)
-    and compared with the file at the end, over files mixing single-line and wrapped records.
+    and compared with the file at the end, over files mixing single-line and wrapped records;
+  * ADJACENT requests on ONE IndexedFasta (the object keeps one file handle that every reader moves): every
+    three-step history  interval fetch [a,e) -> {nothing, whole contig of every record, interval fetch through
+    either interval path} -> interval fetch [e,b)  over every split point e (quick: around line breaks for long
+    records), both interval paths (plain names / StringEncoding) at step 1 and 3, single and multi-interval
+    requests; + window walks over the whole file (window 1, 2, W, W+1) continued across calls with whole-contig
+    reads / fetches through the other path in between.  EVERY step's result is compared with the file;
+  * index building over files LARGER THAN ONE READER CHUNK (the reader works in reads of 5,000,000 bytes and
+    restarts every chunk at a record start): a record longer than the chunk whose first read ends exactly
+    behind a line break / one byte later / one byte earlier, as first, middle and last record; a record boundary
+    exactly at / next to the end of a read; thorough: other line widths (4, 60, 1000, single-line record), a
+    record longer than two reads, a long record following a read-filling one.  create_index rows, the written
+    .fai, lengths, whole contigs and intervals around starts, ends, line breaks and the read boundaries.
 """
 import itertools
 import os
+import random
 
 from .common import Collector, TmpDir, to_py
 
@@ -374,6 +387,327 @@ def check_history(col, tmp, records, width):
         f._f_obj.close()
 
 
+# ----------------------------------------------------------------------------------------------------------------------
+# extension 4: adjacent requests on one IndexedFasta - the readers share one file handle
+# ----------------------------------------------------------------------------------------------------------------------
+
+INTERVAL_PATHS = ("plain", "stringenc")
+_ENCODINGS = {}          # StringEncoding objects of the harness (immutable label lists), one per tuple of contig names
+
+
+def _make_intervals(path, ivs, names):
+    """an Interval object for the (name, start, stop) tuples: chromosome column as plain strings ('plain') or encoded
+    with a StringEncoding over the contig names in file order ('stringenc', what a Genome hands to the reader)"""
+    import numpy as np
+    import bionumpy as bnp
+    from bionumpy.datatypes import Interval
+    if path == "plain":
+        return Interval.from_entry_tuples(ivs)
+    key = tuple(names)
+    if key not in _ENCODINGS:
+        if len(_ENCODINGS) > 50:
+            _ENCODINGS.clear()
+        _ENCODINGS[key] = bnp.encodings.string_encodings.StringEncoding(list(names))
+    enc = _ENCODINGS[key]
+    return Interval(bnp.encoded_array.EncodedArray(np.array([names.index(n) for n, _, _ in ivs]), enc),
+                    np.array([a for _, a, _ in ivs]), np.array([b for _, _, b in ivs]))
+
+
+def run_adjacent_history(col, fa, names, truth, history, case):
+    """history: list of (kind, arg); kind 'plain' / 'stringenc' with arg = list of (name, a, b), kind 'getitem' with
+    arg = contig name.  All requests go to ONE freshly opened IndexedFasta, in order; every result is compared with
+    the file right away.  The signature names the failing request kind and the kind of the request before it."""
+    import bionumpy as bnp
+    col.case({"k": "adjacent-history", **case}, contract="every request of a history == file")
+    f = col.guarded(lambda: bnp.open_indexed(fa), "adjacent-history:open_indexed", case)
+    if f is None:
+        return False
+    prev = "open"
+    try:
+        for step, (kind, arg) in enumerate(history):
+            sig = "adjacent-history:%s-after-%s" % (kind, prev)
+            if kind == "getitem":
+                expect = truth[arg]
+                got = col.guarded(lambda: f[arg].to_string(), sig, case)
+            else:
+                ivs = [tuple(x) for x in arg]
+                expect = [truth[n][a:b] for n, a, b in ivs]
+                intervals = _make_intervals(kind, ivs, names)
+                got = col.guarded(lambda: to_py(f.get_interval_sequences(intervals)), sig, case)
+            if got is None:
+                return False
+            if not col.check(got == expect, sig + ":result-differs-from-file", case,
+                             "step %d of %r: got %r, the file has %r" % (step + 1, history, got, expect)):
+                return False
+            prev = kind
+    finally:
+        f._f_obj.close()
+    return True
+
+
+def split_points(L, W):
+    """where one request ends and the next one starts: every inner position of short records, positions at and around
+    the first two line breaks and the two ends of longer ones"""
+    if L <= 9:
+        return list(range(1, L))
+    return sorted(e for e in {1, 2, W - 1, W, W + 1, 2 * W - 1, 2 * W, 2 * W + 1, L - 2, L - 1} if 1 <= e <= L - 1)
+
+
+def three_step_histories(names, truth, W, tier):
+    """interval fetch ending at base e -> something that moves the handle (or nothing) -> interval fetch starting at e"""
+    k = 0
+    for n in names:
+        L = len(truth[n])
+        others = [m for m in names if m != n] or [n]
+        for e in split_points(L, W):
+            spans = [(0, L), (e - 1, e + 1)] if tier == "quick" else [(0, L), (e - 1, e + 1), (0, e + 1), (e - 1, L)]
+            for a, b in sorted(set(spans)):
+                far = (names[-1], len(truth[names[-1]]) - 1, len(truth[names[-1]]))
+                mids = [[]] + [[("getitem", m)] for m in names]
+                mids += [[(p, [iv])] for p in INTERVAL_PATHS for iv in ((n, a, e), far)]       # quick: p != path of step 3
+                for multi in ((k % 2 == 0,) if tier == "quick" else (False, True)):
+                    k += 1
+                    # multi-interval requests: the adjacent interval is the LAST of the first request and the FIRST of
+                    # the second one
+                    lead = [(others[0], 0, 1)] if multi else []
+                    trail = [(others[-1], 0, len(truth[others[-1]]))] if multi else []
+                    for p1 in INTERVAL_PATHS:
+                        for mid in mids:
+                            for p3 in INTERVAL_PATHS:
+                                if tier == "quick" and mid and mid[0][0] == p3:
+                                    continue
+                                yield [(p1, lead + [(n, a, e)])] + mid + [(p3, [(n, e, b)] + trail)]
+
+
+def window_walks(names, truth, W):
+    """the whole file read in consecutive windows, one request per window (the next request starts where the previous
+    one stopped; at a contig end it continues with base 0 of the next contig), with other reads in between"""
+    windows = sorted({1, 2, W, W + 1})
+    far = (names[0], 0, 1)
+    for k in windows:
+        steps = [(n, s, min(s + k, len(truth[n]))) for n in names for s in range(0, len(truth[n]), k)]
+        for paths in (("plain",), ("stringenc",), ("plain", "stringenc")):
+            for between in ("nothing", "getitem-next-record", "getitem-same-record", "other-path-elsewhere", "other-path-same-window"):
+                history = []
+                for i, iv in enumerate(steps):
+                    p = paths[i % len(paths)]
+                    other = INTERVAL_PATHS[1 - INTERVAL_PATHS.index(p)]
+                    history.append((p, [iv]))
+                    if between == "getitem-next-record":
+                        history.append(("getitem", names[(names.index(iv[0]) + 1 + i) % len(names)]))
+                    elif between == "getitem-same-record":
+                        history.append(("getitem", iv[0]))
+                    elif between == "other-path-elsewhere":
+                        history.append((other, [far]))
+                    elif between == "other-path-same-window":
+                        history.append((other, [iv]))
+                yield history
+
+
+def check_adjacent(col, tmp, records, width, tier, only_history=None):
+    data, rows = make_fasta(records, width)
+    fa = os.path.join(tmp, "adj%d.fa" % col.evaluations)
+    open(fa, "wb").write(data)
+    write_fai(fa + ".fai", rows)
+    names = [h.split()[0] for h, _ in records]
+    truth = {h.split()[0]: s for h, s in records}
+    if only_history is not None:
+        histories = [only_history]
+    elif tier == "quick" and width == 4:
+        histories = window_walks(names, truth, width)
+    else:
+        histories = itertools.chain(three_step_histories(names, truth, width, tier), window_walks(names, truth, width))
+    for history in histories:
+        history = [(k, a if k == "getitem" else [tuple(x) for x in a]) for k, a in history]
+        case = {"scenario": "adjacent-history", "records": records, "width": width, "history": history}
+        run_adjacent_history(col, fa, names, truth, history, case)
+        if col.out_of_time():
+            break
+    os.unlink(fa)
+    os.unlink(fa + ".fai")
+
+
+def adjacent_cases(tier):
+    names = ("chrA", "pB", "chrC")
+    for W in (1, 2, 3, 4, 9):
+        layouts = [(2 * W + 1, W, W + 2)]
+        if tier != "quick":
+            layouts += [(W + 1, 3 * W)]
+        for Ls in layouts:
+            yield [(names[i], seq_of(L, i + 1)) for i, L in enumerate(Ls)], W
+
+
+# ----------------------------------------------------------------------------------------------------------------------
+# extension 5: index building over files larger than one reader chunk
+# ----------------------------------------------------------------------------------------------------------------------
+
+CHUNK = 5000000          # default min_chunk_size of the file reader (read_chunks / read_chunk), what create_index uses
+_ACGT_TABLE = bytes(b"ACGT"[i & 3] for i in range(256))
+
+
+def big_seq(n, salt):
+    """n pseudo-random bases, a function of (n, salt) only"""
+    return random.Random("C17-%d" % salt).randbytes(n).translate(_ACGT_TABLE).decode()
+
+
+def header_of_len(name, n):
+    """a header text (without '>') of exactly n characters whose first token is `name`, or None"""
+    if n == len(name):
+        return name
+    if n >= len(name) + 2:
+        return name + " " + "d" * (n - len(name) - 1)
+    return None
+
+
+def long_record(name, W, d, min_len):
+    """(header, L): a record longer than `min_len` bases, wrapped at W, such that a read of CHUNK bytes starting at
+    its '>' ends d bytes behind a line break of the sequence (d = 0: the newline is the last byte of the read;
+    d = W: the newline is the first byte of the next read)"""
+    h = (CHUNK - d) % (W + 1)
+    while header_of_len(name, h - 2) is None:
+        h += W + 1
+    return header_of_len(name, h - 2), min_len
+
+
+def read_filling_record(name, W, d):
+    """(header, L): a record whose bytes (header line + sequence lines) are exactly CHUNK + d, so that the next
+    record's '>' is d bytes behind the end of a read starting at this record"""
+    h = len(name) + 8
+    while True:
+        q, r = divmod(CHUNK + d - h, W + 1)
+        if r != 1 and header_of_len(name, h - 2) is not None:
+            return header_of_len(name, h - 2), q * W + (r - 1 if r else 0)
+        h += 1
+
+
+def multi_chunk_layouts(tier):
+    """yields (class, width, [(header, L, salt), ...], [(index of record, offset of the '>' of that record at which the
+    stated byte relation holds, relation)]) ; relation is checked on the generated bytes before the library is called"""
+    W = 80
+    small = lambda name, L, salt: (name, L, salt)
+    for d, before, after in ((0, True, True), (1, False, True), (W, True, False)):
+        hdr, L = long_record("chr1", W, d, 6200000)
+        recs = ([small("scaffold_7 unplaced", 1234, 2)] if before else []) + [(hdr, L, 1)] + \
+               ([small("chrM mitochondrion", 16569, 3)] if after else [])
+        yield "long-record:first-read-ends-%d-bytes-behind-a-line-break" % d, W, recs, (1 if before else 0, CHUNK - 1 - d, "\n")
+    hdr, L = read_filling_record("chrF", W, 0)
+    yield "record-boundary:next-record-starts-0-bytes-behind-a-read", W, [(hdr, L, 4), small("tail x", 2 * W + 1, 5)], (0, CHUNK, ">")
+    if tier == "quick":
+        return
+    for d in (-1, 1):
+        hdr, L = read_filling_record("chrF", W, d)
+        yield "record-boundary:next-record-starts-%s-a-read" % ("1-byte-before-the-end-of" if d < 0 else "1-byte-behind"), W, [(hdr, L, 4), small("tail x", 2 * W + 1, 5)], (0, CHUNK + d, ">")
+    # a read-filling record followed by a record that fills more than a read itself
+    hdr, L = read_filling_record("chrF", W, 0)
+    hdr2, L2 = long_record("chrG", W, 0, 5300000)
+    yield "record-boundary:long-record-behind-a-read-filling-record", W, [(hdr, L, 4), (hdr2, L2, 6), small("t", 5, 7)], (0, CHUNK, ">")
+    # other line widths; the long record alone in the file / single-line long record
+    for W2 in (4, 60, 1000):
+        for d in (0, 1):
+            hdr, L = long_record("chr1", W2, d, 5200000 if W2 == 4 else 5600000)
+            yield "long-record:first-read-ends-%d-bytes-behind-a-line-break" % d, W2, [small("s0", W2 + 1, 2), (hdr, L, 1), small("s1 y", 3, 3)], (1, CHUNK - 1 - d, "\n")
+    hdr, L = long_record("chr1", W, 0, 5600000)
+    yield "long-record:only-record", W, [(hdr, L, 1)], (0, CHUNK - 1, "\n")
+    yield "long-record:single-line", 5600000, [small("s0", 7, 2), ("chr1 one line", 5600000, 1), small("s1", 3, 3)], None
+    # a record longer than two reads: line break at the end of the first / of the second read
+    hdr, L = long_record("chr1", W, 0, 10100000)
+    yield "two-reads-long-record:first-read-ends-0-bytes-behind-a-line-break", W, [small("s0", 100, 2), (hdr, L, 1), small("s1", 3, 3)], (1, CHUNK - 1, "\n")
+    h = (2 * CHUNK) % (W + 1)
+    yield "two-reads-long-record:second-read-ends-0-bytes-behind-a-line-break", W, \
+        [small("s0", 100, 2), (header_of_len("chr1", h - 2), 10100000, 1), small("s1", 3, 3)], (1, 2 * CHUNK - 1, "\n")
+
+
+def big_intervals(L, W, offset, record_start):
+    """intervals of one record around its start, its end, the first line breaks and the places where a read of the
+    index builder can end (CHUNK and 2 CHUNK bytes behind the start of the file / of the record), a few long ones"""
+    points = {0, 1, W - 1, W, W + 1, L - W - 1, L - 2, L - 1}
+    for boundary in (record_start + CHUNK, record_start + 2 * CHUNK, CHUNK, 2 * CHUNK):
+        if boundary < offset:
+            continue
+        row, colm = divmod(boundary - offset, W + 1)
+        pb = row * W + min(colm, W)
+        points |= {pb - W, pb - 1, pb, pb + 1, pb + W}
+        points |= {pb - 3 * W - 1}
+    out = []
+    for p in sorted(points):
+        if not 0 <= p < L:
+            continue
+        for n in (1, 2, W, W + 1, 2 * W + 1, 6 * W + 3):
+            if p + n <= L:
+                out.append((p, p + n))
+        if L - p <= 3 * W + 3:
+            out.append((p, L))
+    out.append((0, L))
+    return sorted(set(out))
+
+
+def check_multi_chunk(col, tmp, klass, width, layout, relation):
+    import bionumpy as bnp
+    from bionumpy.io.indexed_fasta import create_index
+    layout = [tuple(x) for x in layout]
+    case = {"scenario": "multi-chunk", "class": klass, "width": width, "layout": layout,
+            "relation": list(relation) if relation else None}
+    records = [(h, big_seq(L, salt)) for h, L, salt in layout]
+    data, rows = make_fasta(records, width)
+    names = [h.split()[0] for h, _ in records]
+    truth = {h.split()[0]: s for h, s in records}
+    starts = [r[2] - len(h) - 2 for r, (h, _) in zip(rows, records)]           # offset of each record's '>'
+    if relation:
+        k, rel, byte = relation
+        assert data[starts[k] + rel:starts[k] + rel + 1] == byte.encode(), "generator: layout does not have the stated alignment"
+    fa = os.path.join(tmp, "big%d.fa" % col.evaluations)
+    open(fa, "wb").write(data)
+    size = len(data)
+    del data
+    fai = fa + ".fai"
+    try:
+        col.case({"k": "multi-chunk:create_index", **case}, contract="create_index")
+        idx = col.guarded(lambda: create_index(fa), "multi-chunk:create_index", case)
+        if idx is not None:
+            got_rows = [(n.split()[0], int(l), int(s), int(c), int(b)) for n, l, s, c, b in
+                        zip(to_py(idx.chromosome), idx.length, idx.start, idx.characters_per_line, idx.line_length)]
+            col.check(got_rows == rows, "multi-chunk:create_index:rows-differ-from-faidx", case,
+                      "file of %d bytes: got %r expected %r" % (size, got_rows[:6], rows[:6]))
+        col.case({"k": "multi-chunk:written-fai", **case}, contract="written .fai == faidx rows of every record")
+        f = col.guarded(lambda: bnp.open_indexed(fa), "multi-chunk:open_indexed", case)
+        if f is None:
+            return
+        try:
+            if col.check(os.path.isfile(fai), "multi-chunk:written-index:no-fai-written", case, "no .fai next to the FASTA"):
+                got_rows = parse_fai(open(fai).read())
+                col.check(got_rows == rows, "multi-chunk:written-index:rows-differ-from-faidx", case,
+                          "file of %d bytes: got %r expected %r" % (size, (got_rows or [])[:6], rows[:6]))
+            col.case({"k": "multi-chunk:lengths", **case}, contract="get_contig_lengths")
+            got = col.guarded(lambda: {k: int(v) for k, v in f.get_contig_lengths().items()}, "multi-chunk:get_contig_lengths", case)
+            if got is not None:
+                col.check(got == {n: len(truth[n]) for n in names}, "multi-chunk:get_contig_lengths:not-sequence-length", case,
+                          "got %r expected %r" % (got, {n: len(truth[n]) for n in names}))
+            for n in names:
+                col.case({"k": "multi-chunk:whole", "name": n, **case}, contract="IndexedFasta.__getitem__")
+                g = col.guarded(lambda: f[n].to_string(), "multi-chunk:getitem", case)
+                if g is not None and g != truth[n]:
+                    first = next((i for i, (x, y) in enumerate(zip(g, truth[n])) if x != y), min(len(g), len(truth[n])))
+                    col.fail("multi-chunk:getitem:wrong-sequence", case, "%s: %d bases returned, %d in the file, first difference at base %d"
+                             % (n, len(g), len(truth[n]), first))
+            ivs = []
+            for (h, s), r, st in zip(records, rows, starts):
+                ivs += [(r[0], a, b) for a, b in big_intervals(len(s), width, r[2], st)]
+            for path in INTERVAL_PATHS:
+                col.case({"k": "multi-chunk:intervals", "path": path, "n": len(ivs), **case}, contract="get_interval_sequences")
+                intervals = _make_intervals(path, ivs, names)
+                g = col.guarded(lambda: to_py(f.get_interval_sequences(intervals)), "multi-chunk:get_interval_sequences:" + path, case)
+                if g is not None:
+                    bad = [(iv, len(x)) for iv, x in zip(ivs, g) if x != truth[iv[0]][iv[1]:iv[2]]]
+                    col.check(not bad and len(g) == len(ivs), "multi-chunk:get_interval_sequences:wrong-substring:" + path, case,
+                              "%d results for %d intervals; first wrong (interval, length returned) %r" % (len(g), len(ivs), bad[:3]))
+        finally:
+            f._f_obj.close()
+    finally:
+        for p in (fa, fai):
+            if os.path.exists(p):
+                os.unlink(p)
+
+
 def cases(tier):
     maxL = 6 if tier == "quick" else 7
     widths = [1, 2, 3, 4, 9]
@@ -442,11 +776,25 @@ def run(tier="quick", seed=0):
                     "(open_indexed / Genome.from_file variants / Genome.read_sequence) x names with '_' and descriptions, then a fresh "
                     "open_indexed; + histories on one IndexedFasta (every fetch order + re-fetch, items(), values(), interleaved interval "
                     "reads; results kept and compared at the end) over files of 2..4 records mixing single-line and wrapped records"
-                    % (6 if tier == "quick" else 7, len(ROUTES)))
+                    "; + adjacent requests on one IndexedFasta: every 3-step history fetch [a,e) -> {nothing, whole contig of each record, "
+                    "fetch through either interval path} -> fetch [e,b) x split points e x both interval paths x single/multi-interval "
+                    "requests, and window walks (window 1,2,W,W+1) over the whole file with other reads in between, every step compared "
+                    "with the file; + index building over files larger than one 5,000,000-byte read (%d layouts: long record whose first "
+                    "read ends at / next to a line break, record boundary at / next to the end of a read%s)"
+                    % (6 if tier == "quick" else 7, len(ROUTES), len(list(multi_chunk_layouts(tier))),
+                       "" if tier == "quick" else ", widths 4/60/1000/single-line, record longer than two reads"))
     col.bounds = {"records": "1..3", "L": "1..%d" % (6 if tier == "quick" else 7), "W": [1, 2, 3, 4, 9],
                   "supplied_fai_variants": ["final newline", "no final newline"], "index_writing_routes": list(ROUTES),
                   "written_index_records": "1..4, names with '_' / descriptions", "history_records": "2..4, L in {1,W-1,W,W+1,2W,2W+1}",
-                  "history_fetch_orders": "all permutations + re-fetch of the first, same contig twice"}
+                  "history_fetch_orders": "all permutations + re-fetch of the first, same contig twice",
+                  "adjacent_history_files": "per W: records of length (2W+1, W, W+2)" + ("" if tier == "quick" else " and (W+1, 3W)"),
+                  "adjacent_history_split_points": "all for L <= 9, else at/around the first two line breaks and the ends"
+                                                   + (" (three-step histories: W in 1,2,3,9)" if tier == "quick" else ""),
+                  "adjacent_history_middle_step": ["none", "getitem of each record", "plain / stringenc fetch of the same interval",
+                                                   "plain / stringenc fetch elsewhere"],
+                  "window_walk_windows": "1, 2, W, W+1",
+                  "multi_chunk_layouts": [k + " (W=%d)" % w for k, w, _, _ in multi_chunk_layouts(tier)],
+                  "reader_chunk_bytes": CHUNK}
     with TmpDir() as tmp:
         for records, W in cases(tier):
             for supplied in (False, True):
@@ -466,12 +814,20 @@ def run(tier="quick", seed=0):
             check_history(col, tmp, records, W)
             if col.out_of_time():
                 break
+        for records, W in adjacent_cases(tier):
+            check_adjacent(col, tmp, records, W, tier)
+            if col.out_of_time():
+                break
+        for klass, W, layout, relation in multi_chunk_layouts(tier):
+            check_multi_chunk(col, tmp, klass, W, layout, relation)
+            if col.out_of_time():
+                break
     return col.result()
 
 
 def replay(case):
     col = Collector("C17", "quick", 0, "replay")
-    records = [tuple(r) for r in case["records"]]
+    records = [tuple(r) for r in case.get("records", ())]
     with TmpDir() as tmp:
         scenario = case.get("scenario")
         if scenario == "supplied-fai-variant":
@@ -480,6 +836,10 @@ def replay(case):
             check_written_index(col, tmp, records, case["width"], case["route"])
         elif scenario == "history":
             check_history(col, tmp, records, case["width"])
+        elif scenario == "adjacent-history":
+            check_adjacent(col, tmp, records, case["width"], "quick", only_history=[tuple(x) for x in case["history"]])
+        elif scenario == "multi-chunk":
+            check_multi_chunk(col, tmp, case["class"], case["width"], case["layout"], case.get("relation"))
         else:
             check_case(col, tmp, records, case["width"], case["supplied_index"], case.get("final_newline", True))
     if col.failures:
